@@ -10,7 +10,7 @@ mkdir -p $MUTDIR
 for n in "${names[@]}"; do
     d=seeded/$n; [ -f $d/patch.diff ] || continue
     id=${n%%-*}
-    tools/mutcheck.sh $d/patch.diff $id > $MUTDIR/redetect.out 2>&1; rc=$?
+    tools/mutcheck.sh /verif/$d/patch.diff $id > $MUTDIR/redetect.out 2>&1; rc=$?
     python3 - "$d" "$HEAD" "$rc" "$MUTDIR/redetect.out" <<'PY'
 import json, sys, re
 d, head, rc, outp = sys.argv[1], sys.argv[2], int(sys.argv[3]), sys.argv[4]
